@@ -20,7 +20,7 @@ CONSTANTS MaxDepth,        \* number of wrappers above the base function
           AllForms         \* TRUE: every statement form at every level; FALSE: wrappers use a reduced set
 
 Targets == {"global", "local", "valparam", "refparam"}
-Shapes == {"scalar", "elem", "field", "condl", "condr"}   \* cond*: lvalue (c ? l : T), (c ? T : l) mixing in an own local
+Shapes == {"scalar", "elem", "field", "condl", "condr", "dscalar", "bscalar"}    \* dscalar / bscalar: the written object is a double / a bool   \* cond*: lvalue (c ? l : T), (c ? T : l) mixing in an own local
    \* (a parenthesised comma expression is not an expression of the language - commas exist in update lists and for-clauses only - so it cannot be an lvalue)
 WriteForms == {"assign", "addassign", "preinc", "postinc", "predec", "postdec"}
 StmtForms == {"plain", "if", "else", "then_else", "elseif", "for_body", "for_init", "for_step", "for_cond", "while_body", "while_cond",
@@ -43,6 +43,8 @@ Init == fam = <<>> /\ sem = <<>> /\ chg = <<>> /\ serr = FALSE /\ ierr = FALSE
 DeclBase ==
     /\ fam = <<>>
     /\ \E t \in Targets, sh \in Shapes, wf \in WriteForms, sf \in StmtForms :
+          /\ (sh \in {"dscalar", "bscalar"} => wf = "assign")              \* `gd = 1`, `gb = true`; ++ and += are not for every type
+          /\ (sh = "dscalar" => sf # "return")                             \* an int function cannot return the double
           /\ fam' = <<[kind |-> "base", target |-> t, shape |-> sh, wf |-> wf, sf |-> sf]>>
           /\ sem' = << CASE t = "global" -> {"G"} [] t = "refparam" -> {"P"} [] OTHER -> {} >>
              \* implementation: the written symbol is collected if the statement form is visited, then locals and
